@@ -9,7 +9,7 @@ fn main() {
     let timeout = Duration::from_millis(1200);
     let mut observed = 0;
     let mut bad = Vec::new();
-    for _round in 0..6 {
+    for _round in 0..10 {
         let server = Arc::new(tiny_http::Server::http("127.0.0.1:0").unwrap());
         let sa = server.clone();
         let a = std::thread::spawn(move || {
@@ -44,7 +44,7 @@ fn main() {
             if a_elapsed < timeout - Duration::from_millis(60) { bad.push(format!("recv_timeout({:?}) came back empty-handed after {:?} although every request went to another receiver", timeout, a_elapsed)); }
             if a_elapsed > timeout * 2 + Duration::from_millis(300) { bad.push(format!("recv_timeout({:?}) took {:?}", timeout, a_elapsed)); }
         }
-        if observed >= 3 || !bad.is_empty() { break; }
+        if observed >= 2 || !bad.is_empty() { break; }
     }
     verdict(bad.is_empty(), &if bad.is_empty() { format!("{} rounds in which a poller took the request: the timed receiver kept waiting for the rest of its timeout", observed) } else { bad.join(" | ") });
 }
